@@ -316,6 +316,14 @@ func (fl *flattener) runFrom(f *ssa.Function, start *ssa.BasicBlock, bind map[ss
 						}
 					}
 				}
+				// ... and so is a single-block constructor of a value record ("addrOf(i) bitAddr")
+				if g != nil && inAnalysed(g) && len(g.Blocks) == 1 && depth < fl.maxDepth && g.Signature.Results().Len() == 1 {
+					if _, isStruct := g.Signature.Results().At(0).Type().Underlying().(*types.Struct); isStruct {
+						if named := namedOf(g.Signature.Results().At(0).Type()); named != nil && named.Obj().Pkg() != nil && strings.HasPrefix(named.Obj().Pkg().Path(), slimPath) {
+							storesThroughParam = true
+						}
+					}
+				}
 				if !storesThroughParam {
 					if g == nil || !inAnalysed(g) || len(g.Blocks) == 0 || depth >= fl.maxDepth || hasLoop(g) || len(g.Blocks) == 1 || (fl.scope != nil && !fl.scope(g)) {
 						continue // evaluated as a term (single-block helpers are inlined by E6 itself)
